@@ -309,7 +309,10 @@ func runC06(e *sim.Env) {
 			}
 		case "disc_sockets_false", "disc_sockets_true":
 			if s := victimSrv(); s != nil {
-				room := sio.Room("r-" + string(s.ID()))
+				// the socket's own room: joined before the connection handler runs (the handler's
+				// own Join("r-<id>") may still be in progress under a stall, and a socket that is
+				// not yet in a room is rightly left alone by In(room).DisconnectSockets)
+				room := sio.Room(s.ID())
 				applied, appliedSrvDisc = true, true
 				e.Go(func() {
 					id, _ := e.Invoke(0, cause)
